@@ -485,9 +485,19 @@ func sortedAfter(info *types.Info, stack []ast.Node, loop *ast.RangeStmt, obj ty
 		if idx < 0 {
 			continue
 		}
+		closures := map[types.Object]*ast.FuncLit{}
 		for _, st := range list[idx+1:] {
 			if !mentions(info, st, obj) {
 				continue
+			}
+			// less := func(i, j int) bool { … } — a comparison function that is named before it is handed to sort
+			if as, ok := st.(*ast.AssignStmt); ok && len(as.Lhs) == 1 && len(as.Rhs) == 1 {
+				if fl, ok := ast.Unparen(as.Rhs[0]).(*ast.FuncLit); ok {
+					if id, ok := as.Lhs[0].(*ast.Ident); ok {
+						closures[info.ObjectOf(id)] = fl
+						continue
+					}
+				}
 			}
 			es, ok := st.(*ast.ExprStmt)
 			if !ok {
@@ -504,6 +514,13 @@ func sortedAfter(info *types.Info, stack []ast.Node, loop *ast.RangeStmt, obj ty
 			pp := fn.Pkg().Path()
 			if sortFuncs[pp+"."+fn.Name()] {
 				if first, ok := ast.Unparen(call.Args[0]).(*ast.Ident); ok && info.ObjectOf(first) == obj {
+					if len(call.Args) == 2 {
+						if id, ok := ast.Unparen(call.Args[1]).(*ast.Ident); ok && closures[info.ObjectOf(id)] != nil {
+							c2 := *call
+							c2.Args = []ast.Expr{call.Args[0], closures[info.ObjectOf(id)]}
+							return sortKeyInjective(info, &c2)
+						}
+					}
 					return sortKeyInjective(info, call)
 				}
 			}
